@@ -1082,3 +1082,88 @@ func (b Bounds) GenNameShape(eco, shape string, emit func(*Case)) {
 		}
 	}
 }
+
+// GenParentShape enumerates Maven projects with a LOCAL PARENT pom whose property is shared between a vulnerable,
+// upgradable requirement y (= d1) and a requirement z (= d2) of another package (used by C11):
+//
+//	parent-req   parent.xml: property P = a, requirement d1 = ${P}; child: requirement d2 = ${P} (inherited property)
+//	parent-rev   parent.xml: property P = a, requirement d2 = ${P}; child: requirement d1 = ${P}
+//	parent-prop  parent.xml: property P = a only;                  child: requirements d1 = ${P} and d2 = ${P}
+//	             d1 and d2 publish S; vulns {d1 [0,f)}
+//	             S in Subsets(ladder, 2) x a in S x f in ladder x CfgSets(d1,d2) + (major,d2:patch) (major,d2:minor)
+func (b Bounds) GenParentShape(emit func(*Case)) {
+	l := b.Ladder
+	const P = "lib.version"
+	cfgs := append(b.CfgSets([]string{"d1", "d2"}), []string{"major", "d2:patch"}, []string{"major", "d2:minor"})
+	for _, shape := range []string{"parent-req", "parent-rev", "parent-prop"} {
+		for _, s := range Subsets(l, 2) {
+			for _, a := range s {
+				for _, f := range l {
+					for _, cfg := range cfgs {
+						inh := func(n string) Req { return Req{Name: n, Req: a, Prop: P, PropInherited: true} }
+						c := &Case{Eco: Maven, Shape: shape, Cfg: cfg,
+							Pkgs:  []Pkg{{Name: "d1", Vers: plainVers(s)}, {Name: "d2", Vers: plainVers(s)}},
+							Vulns: []Vuln{{ID: "V1", Pkg: "d1", Introduced: "0", Fixed: f}}}
+						switch shape {
+						case "parent-req":
+							c.Parent = &ParentPom{Reqs: []Req{{Name: "d1", Req: a, Prop: P}}}
+							c.Manifest = []Req{inh("d2")}
+						case "parent-rev":
+							c.Parent = &ParentPom{Reqs: []Req{{Name: "d2", Req: a, Prop: P}}}
+							c.Manifest = []Req{inh("d1")}
+						default:
+							c.Parent = &ParentPom{Props: []Prop{{Name: P, Value: a}}}
+							c.Manifest = []Req{inh("d1"), inh("d2")}
+						}
+						emit(c)
+					}
+				}
+			}
+		}
+	}
+}
+
+// EqualSpellings: Maven version strings; the first five order EQUAL (1.0 = 1.0.0 = 1.0.0.0 = 1.0-ga = 1.0.Final).
+var EqualSpellings = []string{"1.0", "1.0.0", "1.0.0.0", "1.0-ga", "1.0.Final", "1.0.1", "1.1"}
+
+// GenCandidateShapes enumerates the Maven shapes that are still under triage (run by C11 only with
+// VERIF_C11_CANDIDATES=1):
+//
+//	equal-update    (Update)   manifest {d1: a}; d1 publishes S: S in Subsets(EqualSpellings, 3) x a in EqualSpellings x CfgSets(d1)
+//	equal-override  (override) the same manifests with vulns {d1 [0,f)} f in {1.0, 1.0.0, 1.0.1, 1.1}
+//	origins-update  (Update)   manifest {d1: v} + a second declaration of d1 at w under dependencyManagement / active-profile
+//	                dependency / active-profile dependencyManagement / INACTIVE-profile dependency; d1 publishes S
+//	                S in Subsets(ladder, 3) x v, w in S x origin x CfgSets(d1)
+func (b Bounds) GenCandidateShapes(shape string, emit func(*Case)) {
+	cfgs := b.CfgSets([]string{"d1"})
+	switch shape {
+	case "equal-update", "equal-override":
+		for _, s := range Subsets(EqualSpellings, 3) {
+			for _, a := range EqualSpellings {
+				for _, cfg := range cfgs {
+					if shape == "equal-update" {
+						emit(&Case{Eco: Maven, Shape: shape, Pkgs: []Pkg{{Name: "d1", Vers: plainVers(s)}}, Manifest: []Req{{Name: "d1", Req: a}}, Cfg: cfg})
+						continue
+					}
+					for _, f := range []string{"1.0", "1.0.0", "1.0.1", "1.1"} {
+						emit(&Case{Eco: Maven, Shape: shape, Pkgs: []Pkg{{Name: "d1", Vers: plainVers(s)}}, Manifest: []Req{{Name: "d1", Req: a}},
+							Vulns: []Vuln{{ID: "V1", Pkg: "d1", Introduced: "0", Fixed: f}}, Cfg: cfg})
+					}
+				}
+			}
+		}
+	case "origins-update":
+		for _, s := range Subsets(b.Ladder, 3) {
+			for _, v := range s {
+				for _, w := range s {
+					for _, o := range []string{OriginManagement, OriginProfile, OriginProfileManagement, OriginProfileInactive} {
+						for _, cfg := range cfgs {
+							emit(&Case{Eco: Maven, Shape: shape, Pkgs: []Pkg{{Name: "d1", Vers: plainVers(s)}},
+								Manifest: []Req{{Name: "d1", Req: v}, {Name: "d1", Req: w, Origin: o}}, Cfg: cfg})
+						}
+					}
+				}
+			}
+		}
+	}
+}
